@@ -58,7 +58,10 @@ CLAIMED["C07"] = {
             "VariableMapping::update and the found-branch of Stack::register_variable_flags write through set_primitive on the found cell and never "
             "insert or re-declare; store_object (modify) reaches update_callback_variable, which updates the closure's own capture map; plain "
             "store never touches it; (d) Stack::extend starts every activation with VariableMapping::default() and Function::run pushes the frame "
-            "before any handler runs; (a) visitor completeness of the capture walk (every code-bearing AST field is visited by dependencies()). "
+            "before any handler runs; (a) visitor completeness of the capture walk (every code-bearing AST field is visited by dependencies()); (a') the capture filter: get_net_dependencies raises a "
+            "dependency's depth only after comparing it with the block's supplies; every keep/drop comparison in it and in the hand-written "
+            "net_dependencies impls compares Dependency values, never names alone, and Dependency == Dependency is true exactly when names and "
+            "types are equal (truth table); a name resolves to the live frame first, then to the closure's captures. "
             "Does not decide run-time histories.",
     "technique": "static analysis: type-resolved who-may-create/who-may-call, value-origin slicing (pass-through), dominators on rustc MIR; visitor completeness over ADT fields",
     "design_ref": "DESIGN.md §5 C07",
@@ -108,8 +111,10 @@ CLAIMED["C02"] = {
             "checker declares resolves at run time to an implementation that accepts the receiver, destructures the declared parameter kinds and "
             "returns the declared kind (87 receiver/method pairs). (c) visitor completeness of the dependency walk: every code-bearing field of every AST "
             "type with a Dependencies impl is read by dependencies()/supplies() (an unvisited field is an uncaptured variable = undefined variable "
-            "at run time). The return-marking clause is added when its engine lands. Not decided: eq_complex over compound "
-            "types, element kinds of containers, typeof text.",
+            "at run time). (d) return-marking: a block marks its function as returning only through constructs that return on every path "
+            "(Parser::while_loop / if without else never do); `?=` is accepted only between equal operand kinds; every pairwise comparison of two lists of "
+            "types (zip(..).all(..) in crate compiler: function parameters, fixed-shape list types, eq_complex) is dominated by a comparison of their lengths. "
+            "Not decided: eq_complex over compound types beyond that, element kinds of containers, typeof text.",
     "technique": "static analysis: abstract interpretation of rustc MIR extracting decision tables of two sibling implementations, compared exhaustively",
     "design_ref": "DESIGN.md §5 C02",
 }
@@ -143,7 +148,9 @@ CLAIMED["C13"] = {
             "receiver kind, destructures each declared native parameter as exactly that Primitive variant (else unreachable!()), reads no more "
             "arguments than declared, and returns only kinds that inhabit the declared return type; a built-in offered to fixed-shape lists "
             "moves no element; `==` on lists is whole-slice equality and searching built-ins compare with Primitive::equals (structural == on "
-            "program values occurs only inside the equality implementation). (b) no lossy `as` conversion (narrowing, sign-changing, "
+            "program values occurs only inside the equality implementation); an element / entry store (ArrayPtr / MapPtr arms of HeapPrimitive::set) "
+            "stores the given value on every path; each GcMap operation answers from the inner HashMap and never through another GcMap operation "
+            "(contains_key through get() would read a key bound to nil as absent). (b) no lossy `as` conversion (narrowing, sign-changing, "
             "float->int) of a program value in the list/map arms and in index conversion (R-CAST with a backward taint slice to a Primitive). "
             "(c) index/removal range failures are errors, not panics: decided with C17 (a) (R-PANIC: Vec::remove/insert, Index, bounds checks on "
             "program-valued indexes are dominated by a range comparison). Aliasing and contents over histories are not decided.",
@@ -174,7 +181,9 @@ CLAIMED["C10"] = {
             "names are created const (one known finding: names bound by `import a from m` are rebindable copies, which the repository's own test "
             "requires); (4) the read-only flag travels with an identifier (every Ident built from another takes read_only from it); (5) parameter names are "
             "registered in a scope only when the caller asked for it and only after the function's own scope was pushed (a signature read ahead of time "
-            "must not shadow outer names). Does not decide the remaining scoping rules that say which bindings a lookup sees.",
+            "must not shadow outer names); (6) the outward scope walk that answers `did this name exist before` (has_name_been_mapped_in_function) is cut "
+            "short only by a predicate that is false on every block scope kind (IfBlock, ElseBlock, WhileLoop, NumberLoop), the predicate being evaluated "
+            "on each ScopeType variant. Does not decide the remaining scoping rules that say which bindings a lookup sees.",
     "technique": "static analysis: instruction-literal/operand-type enumeration, conditional guarded-by with correlated-test pruning on rustc MIR, pass-through of the const flag",
     "design_ref": "DESIGN.md §5 C10",
 }
@@ -187,7 +196,8 @@ CLAIMED["C03"] = {
             "after compilation succeeded, `run` executes only after compile succeeded, and the CLI's compile wrapper turns any error list into Err "
             "(non-zero exit); (c) one guarded-by instance per typing rule the property names (19 instances: boolean conditions, annotated "
             "initialiser, re-assignment type, unary/binary operator support, unknown name, field/method existence, callable member, index "
-            "support/type/output, loop bounds and step, known type name, break/continue in loop). Does not decide that the diagnostic names the "
+            "support/type/output, loop bounds and step, known type name, break/continue in loop), the list-index predicate read as a table against the run-time index conversion, class-type identity "
+            "(name and declaring file), the shared return-marking and zip-length rules of C02 (d). Does not decide that the diagnostic names the "
             "right source position.",
     "technique": "static analysis: def-use of Err payloads, edge-dominators (must-pass-through) and guarded-by instances over rustc MIR",
     "design_ref": "DESIGN.md §5 C03",
@@ -232,8 +242,9 @@ CLAIMED["C15"] = {
             "opaque sub-expressions, which yields the emitted instruction sequence as a word over code(child) and instruction names (e.g. `<lhs> store_fast "
             "<rhs> load_fast fast_rev2 bin_op`). On that word: code(left) precedes code(right), each occurs exactly once, `&&`/`||` have a store_skip and "
             "`or` a jmp_not_nil between their operands; literal elements and map pairs are laid down in list order (iterator scripted with two elements); "
-            "call arguments are compiled by arguments.iter() -> flat_map(compile) -> collect with no reversal; the skip count of && / || equals the number of instructions laid down after the right operand plus one. Two known findings: compound assignment "
-            "to an index / field target evaluates the right-hand side first. Not decided: jump arithmetic in general (C09), non-interference of later code "
+            "call arguments are compiled by arguments.iter() -> flat_map(compile) -> collect with no reversal; the skip count of && / || equals the number of instructions laid down after the right operand plus one; every recursive compile_depth call receives a fresh register from poll_temporary_register(), never the caller's own parking register "
+            "(a nested operand cannot overwrite a parked left operand); every statement kind lays the code of its payload down exactly once. Two known findings: compound assignment "
+            "to an index / field target evaluates the right-hand side first. Not decided: jump arithmetic in general (C09), other forms of interference of later code "
             "with earlier values, argument order as seen by the callee.",
     "technique": "static analysis: abstract interpretation of the code generators' MIR to symbolic instruction sequences, order / multiplicity rules on the sequences",
     "design_ref": "DESIGN.md §5 C15, §9.1",
@@ -242,7 +253,7 @@ CLAIMED["C15"] = {
 CLAIMED["C12"] = {
     "text": "Decides structural clauses only (which branch a program takes is a run-time fact and is not decided): get -- the parser builds "
             "'{file}:{line}:{col}' of the `get` token in that order and stores it as Expr::UnaryUnwrap.span, the generator emits `<x> unwrap <position>` "
-            "(one argument), and the unwrap handler, read as a table by abstract interpretation over {nil, present value of 7 kinds}, returns Err on nil "
+            "(one argument), an expression statement compiles to `<expr> void` with the expression's code present on every path, and the unwrap handler, read as a table by abstract interpretation over {nil, present value of 7 kinds}, returns Err on nil "
             "with a message formatting args[0] and Ok on every present kind; or -- the generator emits `<x> jmp_not_nil <n> <y>` with n = len(code(y)) + 1, "
             "and the jmp_not_nil handler pops without jumping on nil and jumps without popping on a present value; ?= -- the generator emits `<e> "
             "unwrap_into <name>`, and the unwrap_into handler stores exactly once and pushes false on nil, true on a present value; == nil -- "
